@@ -312,6 +312,8 @@ class Interp:
             if self.models.setattr_hook(self, obj, name, v):
                 return
             self.ctx.heap_write(obj, name, v)
+            if self.ctx.heap_key(obj.cls, name + '?set')[0] is not None:
+                self.ctx.heap_write(obj, name + '?set', VBool(True))       # presence-tracked attribute: now present
         elif isinstance(obj, VExc):
             obj.fields[name] = v
         elif isinstance(obj, VClass):
@@ -1418,7 +1420,10 @@ class Interp:
             # a display with concretely many elements passed where a list is expected
             return VList(ty.t, self.ctx.store_terms(v, ty))
         if isinstance(ty, DictT) and isinstance(v, VDict): return v
-        if isinstance(ty, TupleT) and isinstance(v, VTuple): return v
+        if isinstance(ty, TupleT) and isinstance(v, VTuple):
+            if len(v.items) == len(ty.ts):
+                return VTuple([self.conform(i, t, what) for i, t in zip(v.items, ty.ts)])
+            return v
         if isinstance(ty, _v._TNone) and isinstance(v, VNone): return v
         raise OutOfSubset('argument %s: %r does not fit declared type %r' % (what, v, ty))
 
